@@ -18,14 +18,14 @@ theorem upd_other {α : Type} (f : Nat → α) (k i : Nat) (v : α) (h : i ≠ k
   simp [upd, h]
 
 /-- a positioned residue sits in exactly one tree -/
-theorem InvP.tree_unique {P : Params} {s : State} {pend : Nat → Prop} (h : InvP P s pend) {g t t' : Nat}
+theorem _root_.PolyplyVerif.Engine.InvP.tree_unique {P : Params} {s : State} {pend : Nat → Prop} (h : InvP P s pend) {g t t' : Nat}
     (ht : t < s.nt) (hg : g ∈ s.defined t) (ht' : t' < s.nt) (hg' : g ∈ s.defined t') : t = t' := by
   have h1 := (h.g2t_iff g t).mpr ⟨ht, hg⟩
   have h2 := (h.g2t_iff g t').mpr ⟨ht', hg'⟩
   rw [h1] at h2
   exact Option.some.inj h2
 
-theorem InvP.g2t_none {P : Params} {s : State} {pend : Nat → Prop} (h : InvP P s pend) (g : Nat) :
+theorem _root_.PolyplyVerif.Engine.InvP.g2t_none {P : Params} {s : State} {pend : Nat → Prop} (h : InvP P s pend) (g : Nat) :
     s.g2t g = none ↔ s.pos g = none := by
   constructor
   · intro hn
